@@ -431,8 +431,8 @@ PROPS["C09"] = {
 
 PROPS["C07"] = {
     "title": "Point-in-path agrees with the winding number",
-    "gen_modules": ["Consts", "Basis", "Lines", "CurveLine", "FatLine", "Walk", "Normal", "Ray", "PointInPath", "PathRev"],
-    "props_modules": ["C07", "C04", "C14"],
+    "gen_modules": ["Consts", "Basis", "Lines", "CurveLine", "FatLine", "Walk", "Normal", "Ray", "PointInPath", "PathRev", "Bounds", "CurveBounds"],
+    "props_modules": ["C07", "C04", "C14", "C06", "C06Path"],
     "corr_n": (4000, 80000),
     "search_n": (200, 4000),
     "technique": "Lean 4 theorems about path_contains_point translated WHOLE (bounds test, ray, loop with break, signed sum, != 0; ray_collisions as a parameter) and normal_at_pos / tangent_at_pos from "
